@@ -522,8 +522,8 @@ def cff2_programs(draw):
         depth = 0
         while pos < len(run):
             want = style != "none" and draw(_int(0, 9)) < (7 if style == "dense" else 3)
-            if want and not seen_first_op and first_op_blends >= 1:
-                want = False  # excluded class: >= 2 blend operators before the first stack-clearing operator
+            # (former finding, repaired: several blend operators before the first stack-clearing operator were
+            #  taken for a width by programToCommands; generated again)
             if want:
                 m = 1 if style == "single" else draw(st.integers(1, min(len(run) - pos, 6)))
                 if depth + m * (k + 1) + 1 > LIMIT["cff2"]:
@@ -708,11 +708,9 @@ def _cut(draw, items, i, j, bodies, keys, flat_of, notes):
             flat_body.extend(flat_of(bodies[it[1]][it[2]][0]))
     if ends_char:
         hint_only = not any(isinstance(t, str) and t not in _HINTISH for t in flat_body[:-1])
-        if hint_only:
-            # excluded class (finding): remove_hints never inspects the last token of a subr, so a
-            # subr whose only non-hint operator is its final endchar counts as empty and its call is deleted
-            notes.append("subr-whose-only-non-hint-operator-is-its-final-endchar")
-        if hint_only or draw(_B):
+        # (former finding, repaired: remove_hints deleted the call to a subr whose only non-hint operator is its
+        #  final endchar; such subrs are generated again)
+        if draw(_B):
             # leave endchar in the caller
             body = body[:-1]
             flat_body = flat_body[:-1]
@@ -771,10 +769,9 @@ def fonts(draw, max_glyphs=5):
         sub, ld, gd, notes = draw(_outlined(flats, spans))
         for gi, fl in enumerate(flats):
             if len(fl) == 2 and fl[1] == "endchar" and sub[gi] != fl:
-                notes.append("width-of-an-empty-glyph-inside-a-subr")
-                # excluded class (finding): a glyph that is only "w endchar" with the width inside a
-                # subroutine keeps its width operand when converted to CFF2
-                sub[gi] = list(fl)
+                # (former finding, repaired: a glyph that is only "w endchar" with the width inside a subroutine kept
+                #  its width operand when converted to CFF2; generated again)
+                pass
     return dict(kind="font", dwx=dwx, nwx=nwx, flat=flats, sub=sub, lsubrs=ld, gsubrs=gd, modes=modes, frac=fracs, hintvals=draw(_B), gen_excluded=notes)
 
 
